@@ -139,6 +139,31 @@ pub fn check_c13(prog: &Prog, v: &View, stats: &mut C13Stats) -> Findings {
                     ));
                 }
             }
+            Mark::Text { pos, len } => {
+                let ok = tok_starting_at(v, *pos)
+                    .iter()
+                    .any(|&i| v.toks[i].ty == TokenType::MacroString && v.toks[i].b1 == pos + len);
+                if !ok {
+                    // what does the word consist of instead?
+                    let mut inside = Vec::new();
+                    let first = v.toks.partition_point(|t| t.b1 <= *pos);
+                    let mut i = first;
+                    while i < v.toks.len() && v.toks[i].b0 < pos + len {
+                        inside.push(format!("{:?}", v.toks[i].ty));
+                        i += 1;
+                    }
+                    inside.truncate(3);
+                    f.push(Finding::new(
+                        "C13.text",
+                        &inside.join("+"),
+                        format!(
+                            "word operand {:?} at byte {pos} is not one MacroString token: {:?}",
+                            &prog.s[*pos..pos + len],
+                            inside
+                        ),
+                    ));
+                }
+            }
             Mark::Masked { pos, ctx, depth } => {
                 stats.masked += 1;
                 if *depth >= 1 && !matches!(*ctx, "paren" | "strq" | "strq-paren" | "1arg-builtin") {
